@@ -860,6 +860,13 @@ fn messages_equal(a: &Option<Message>, b: &Option<Message>) -> bool {
     }
 }
 
+fn msg_brief_full(m: &Option<Message>) -> String {
+    match m {
+        None => "<decoder panicked>".into(),
+        Some(m) => format!("{:?}", m),
+    }
+}
+
 fn msg_brief(m: &Option<Message>) -> String {
     match m {
         None => "<decoder panicked>".into(),
@@ -990,6 +997,8 @@ struct C13Obs<'a> {
     stats: Option<&'a mut Stats>,
     evals: u64,
     deliveries: u64,
+    /// (absolute offset, exact frame bytes, Debug rendering of the message decoded in stream order)
+    decoded: Vec<(usize, Vec<u8>, String)>,
 }
 
 impl<'a> C13Obs<'a> {
@@ -1003,6 +1012,12 @@ impl<'a> C13Obs<'a> {
         let what = format!("delivery at abs {}", base + rs);
         check_c13(with, flen, &what, true, self.stats.as_deref_mut())?;
         self.evals += 3;
+        if self.decoded.len() < 256 {
+            if let Ok(Ok(f)) = real_new(&with[..flen]) {
+                let (_, m) = real_message(&f);
+                self.decoded.push((base + rs, with[..flen].to_vec(), msg_brief_full(&m)));
+            }
+        }
         if let Some(st) = self.stats.as_deref_mut() {
             match suffix {
                 0 => st.probe("c13_suffix_0"),
@@ -1203,15 +1218,43 @@ fn judge_c13(trace: &StreamTrace, mut stats: Option<&mut Stats>) -> Option<Viola
     if let Some(st) = stats.as_deref_mut() {
         st.oracle_evals += pre_evals;
     }
-    let mut obs = C13Obs { stats: stats.as_deref_mut(), evals: 0, deliveries: 0 };
+    let mut obs = C13Obs { stats: stats.as_deref_mut(), evals: 0, deliveries: 0, decoded: Vec::new() };
     let r = catch_unwind(AssertUnwindSafe(|| drive(trace, trace.rx_variant, "C13", &mut obs)));
-    let evals = obs.evals;
+    let mut evals = obs.evals;
+    let decoded = std::mem::take(&mut obs.decoded);
+    drop(obs);
     let res = match r {
         Ok(Ok(out)) => {
             if let Some(st) = stats.as_deref_mut() {
                 st.scanner_calls += out.scans;
             }
-            None
+            // the decoded message is a function of the frame's own bytes: decoding the delivered
+            // frames again, each parsed alone and in REVERSE order, must give the same messages
+            // (a decoder that carried something over from the previously decoded frame would not)
+            let mut bad = None;
+            for (off, bytes, want) in decoded.iter().rev() {
+                evals += 1;
+                let got = match real_new(bytes) {
+                    Ok(Ok(f)) => msg_brief_full(&real_message(&f).1),
+                    _ => continue,
+                };
+                if &got != want {
+                    let cut = |s: &String| if s.len() > 70 { format!("{}..", &s[..70]) } else { s.clone() };
+                    bad = Some(Violation::new(
+                        "C13",
+                        "C13.c",
+                        format!(
+                            "frame delivered at abs {} ({} bytes): decoded in stream order it gave {}, decoded again alone after the later frames it gives {}",
+                            off,
+                            bytes.len(),
+                            cut(want),
+                            cut(&got)
+                        ),
+                    ));
+                    break;
+                }
+            }
+            bad
         }
         Ok(Err(v)) => {
             if v.property == "C13" {
